@@ -125,33 +125,34 @@ class C07(core.Check):
 
     def cases(self, tier, seed, shard, nshards):
         rnd = core.sub_rng('C07', seed, shard)
-        n = (60000 if tier == 'quick' else 1500000) // nshards
+        n = (36000 if tier == 'quick' else 1500000) // nshards
         ncli = (96 if tier == 'quick' else 960) // nshards
         from ..gen import docs as gdocs
         i = 0
         while i < n:
-            r = rnd.random()
-            if r < .55:
+            for _ in range(40):
                 yield dict(fam='soup', src=gsoup.soup(rnd), opts=gsoup.rand_opts(rnd), ml=rnd.random() < .3)
                 i += 1
+            pack = rnd.choice(gdocs.PACK_CHOICES)
+            d = gdocs.random_document(rnd, size=rnd.randint(1, 4), pack=pack, max_depth=4,
+                                      theorems=rnd.random() < .3)
+            opts = gsoup.rand_opts(rnd) if rnd.random() < .4 else dict(lang='en')
+            opts['pack'] = pack
+            ml = rnd.random() < .25
+            src = d.src
+            if rnd.random() < .5:
+                # every prefix of the body (preamble: every 9th)
+                ks = list(range(0, d.body_start, 9)) + list(range(d.body_start, len(src)))
+                for k in ks[:400]:
+                    yield dict(fam='prefix', src=src[:k], opts=opts, ml=ml)
+                    i += 1
             else:
-                d = gdocs.random_document(rnd, size=rnd.randint(2, 6))
-                opts = gsoup.rand_opts(rnd) if rnd.random() < .4 else dict(lang='en', pack=d.pack)
-                if 'pack' in opts and '.yvm.ext' not in opts['pack'] and rnd.random() < .7:
-                    opts['pack'] = d.pack
-                ml = rnd.random() < .25
-                src = d.src
-                if rnd.random() < .5:
-                    # every prefix
-                    step = 1 if len(src) < 300 else 2
-                    for k in range(0, len(src), step):
-                        yield dict(fam='prefix', src=src[:k], opts=opts, ml=ml)
-                        i += 1
-                else:
-                    toks = gdocs.rough_tokens(src)
-                    for k in range(len(toks)):
-                        yield dict(fam='delete', src=''.join(toks[:k] + toks[k + 1:]), opts=opts, ml=ml)
-                        i += 1
+                toks = gdocs.rough_tokens(src)
+                body = len(gdocs.rough_tokens(src[:d.body_start]))
+                ks = list(range(0, body, 5)) + list(range(body, len(toks)))
+                for k in ks[:400]:
+                    yield dict(fam='delete', src=''.join(toks[:k] + toks[k + 1:]), opts=opts, ml=ml)
+                    i += 1
         for _ in range(ncli):
             yield dict(fam='cli', src=gsoup.soup(rnd), opts=gsoup.rand_opts(rnd), ml=False)
 
@@ -194,7 +195,8 @@ class C07(core.Check):
             self.clock.limit = None
         err = buf.getvalue()
         steps = self.clock.count
-        cnt['steps_per_char_x100_max'] = 0
+        cnt['max_steps'] = steps
+        cnt['max_steps_per_char'] = steps // (len(src) + len(opts.get('defs') or '') + 20)
         for pat, name in DIAG_KINDS:
             if pat in err:
                 cnt[name] = 1
@@ -255,7 +257,7 @@ class C07(core.Check):
         return dict(ok=True, nt=nt, key=None, cnt=cnt, obs={'exit': 0, 'stdout_len': len(pr.stdout)})
 
     def quotas(self, tier):
-        return {'returned': 20000, 'fam_soup': 10000, 'fam_prefix': 3000, 'fam_delete': 3000, 'cli_returned': 50,
+        return {'returned': 20000, 'fam_soup': 8000, 'fam_prefix': 3000, 'fam_delete': 3000, 'cli_returned': 50,
                 'diag_open_argument': 200, 'diag_open_maths': 200, 'diag_bad_verb': 50, 'diag_open_verbatim': 20,
                 'diag_accent': 20, 'diag_open_skip': 20}
 
